@@ -21,5 +21,7 @@ def jobs(tier):
     for sk in fam:
         J.append(sync_job("ASSERT_C06", sk, extra=["NO_TABLE_FAIL"], timeout=2400 if len(sk) >= 6 else 900))
     J.append(C02.op_job("copy_swap_v4_d1", "harness_copy_swap", 1, 1, 4, 1500, prop="ASSERT_C06", harness="pfx_notify.c"))
-    J.append(C10.spki_job([1, 1, 4], name_prefix="reload_"))
+    J.append(C10.spki_job([1, 4], name_prefix="reload_", timeout=1500, weight=3))
+    if tier == "thorough":
+        J.append(C10.spki_job([1, 1, 4], name_prefix="reload_", timeout=5400, weight=5, mem=28))
     return J
